@@ -210,7 +210,15 @@ Definition sys_step (c : config) (s : sys) (l : label) : option (sys * list out 
               | Ok _ =>
                   if d_session_finished d' then
                     Some (set_result s1 (Some (if d_shouldstop d' then RInterrupted else RFinished)), outs, [])
-                  else Some (s1, outs, [])
+                  else
+                    match d_active d' with
+                    | [] =>
+                        (* the while loop goes straight on: loop_once finds no active node left *)
+                        let '(d2, outs2, _) := d_no_active d' in
+                        Some (set_result (apply_outs (set_d s1 d2) outs2) (Some (RError ERuntimeNoWorkers)),
+                              outs ++ outs2, [])
+                    | _ => Some (s1, outs, [])
+                    end
               end
           end
       end
